@@ -160,8 +160,19 @@ pub fn check_roundtrip(e: &Entry, v: &Val, suffix: &[u8], stats: &mut Stats) -> 
 }
 
 pub fn gen_suffix(g: &mut Gen, e: &Entry) -> Vec<u8> {
-	match g.below(6) {
+	match g.below(7) {
 		0 | 1 => vec![],
+		6 => {
+			// long trailing data: total remaining lengths around the powers of 256 and the 16 KiB window, where a
+			// guard computed from a truncated or chunked remaining length would misjudge "enough data"
+			let base = *g.pick(&[256usize, 512, 4096, 16 * 1024, 65_536]);
+			let n = base - 24 + g.below(48);
+			let mut b = vec![0u8; n];
+			if g.bool() {
+				g.stream().fill(&mut b);
+			}
+			b
+		},
 		2 => vec![g.u8()],
 		3 => {
 			let n = g.below(65);
@@ -184,7 +195,7 @@ pub fn tape_checks(ctx: &Ctx) -> Vec<(&'static str, Box<CheckFn<'_>>)> {
 	vec![(
 		"roundtrip",
 		Box::new(move |g: &mut Gen, stats: &mut Stats| {
-			let e = *g.pick(&entries);
+			let e = pick_entry(g, &entries);
 			let mut cfg = GenCfg::default();
 			let v = gen_val(&e.ty, g, &mut cfg);
 			let suffix = gen_suffix(g, e);
